@@ -163,6 +163,8 @@ static void t_episode(prng_t* g, int ep, int kind, int full_check, size_t fixed_
     t_free_slot(k);                           // the regular free
     if (kind == 0) {
       if (prng_below(g, 2)) { t_alloc(heap, other, g, full_check); if (g_nerr) n_spurious++; }
+      // half of the time the first free is old: a forced collect has moved the block from local_free to the page's free list
+      if (prng_below(g, 2)) { wkind = 1; mi_heap_collect(heap, true); if (g_nerr) n_spurious++; }
       g_stage = "double-free";
       g_nerr = 0;
       mi_free(x);                             // the second free
